@@ -187,7 +187,8 @@ class DistributedNetwork(BaseManager):
         # be disconnected
         distributed_connections = [
             dpeer.connection for dpeer in self.distributed_peers
-            if dpeer in [self.parent, ] + self.children
+            if dpeer is self.parent or (
+                dpeer in self.children and dpeer.username != peer.username)
         ]
 
         disconnect_tasks = []
